@@ -1025,8 +1025,54 @@ def _run_twice(cfg) -> Dict[str, Any]:
     return {"outcome": "twice:" + "+".join(sorted(outs_seen)), "violations": viol[:12], "counters": counters, "helper": sname}
 
 
+# ---------------------------------------------------------------------------
+# the error answer arrives BEHIND other traffic (thresholds around the poll loop and stream buffers)
+# ---------------------------------------------------------------------------
+BEHIND_K = [0, 1, 2, 99, 100, 101, 250]
+BEHIND_KINDS = ["notifications", "responses-to-other-ids", "errors-for-other-ids-with-another-code", "server-requests", "mixed"]
+
+
+def _run_behind(cfg) -> Dict[str, Any]:
+    from chuk_mcp.protocol.messages.send_message import send_message
+
+    code = cfg["code"]
+    viol: List[dict] = []
+    counters = {"behind_calls": 0}
+    outs = set()
+    other_code = -32603 if code in PERMANENT else -32601  # a code of the OTHER class
+    for kind in BEHIND_KINDS:
+        for k in BEHIND_K:
+            def distractor(i, kind=kind):
+                kk = kind if kind != "mixed" else BEHIND_KINDS[i % 4]
+                if kk == "notifications":
+                    return {"jsonrpc": "2.0", "method": "notifications/message", "params": {"i": i, "error": {"code": other_code}}}
+                if kk == "responses-to-other-ids":
+                    return {"jsonrpc": "2.0", "id": f"other-{i}", "result": {"i": i}}
+                if kk == "errors-for-other-ids-with-another-code":
+                    return {"jsonrpc": "2.0", "id": f"other-{i}", "error": {"code": other_code, "message": "not yours"}}
+                return {"jsonrpc": "2.0", "id": f"srv-{i}", "method": "sampling/createMessage", "params": {"i": i}}
+
+            def script(req, n, k=k):
+                front = [hd.incoming(distractor(i)) for i in range(k)]
+                return front + [hd.incoming({"jsonrpc": "2.0", "id": req["id"], "error": {"code": code, "message": MSG}}),
+                                hd.incoming(distractor(k + 1))]
+
+            o = hd.drive(send_message, {"method": "tools/list"}, script, timeout=5.0)
+            counters["behind_calls"] += 1
+            sub: List[dict] = []
+            outs.add(_judge_raise(o, code, (2, 0), "send_message", sub,
+                                  f"code={code}: the error response arrives behind {k} messages of kind {kind}"))
+            for v in sub:
+                v["sig"] = {**v["sig"], "scenario": "answer-behind-other-traffic", "traffic": kind,
+                            "behind": "0" if k == 0 else ("<100" if k < 100 else ">=100")}
+            viol.extend(sub[:2])
+    return {"outcome": "behind:" + "+".join(sorted(outs)), "violations": viol[:12], "counters": counters, "code": code}
+
+
 def _run_part(ctl: explorer.Ctl, cfg: Dict[str, Any]) -> Dict[str, Any]:
     part = cfg["part"]
+    if part == "behind":
+        return _run_behind(cfg)
     if part == "carrier":
         return _run_carrier(cfg)
     if part == "twice":
@@ -1133,6 +1179,14 @@ def run(tier: str, only=None) -> core.Result:
     samples += _pick("ii-two-calls-sharing-params", pcfgs)
     sched.debug_pass(res, "ii-two-calls-sharing-params", RUN, pcfgs, every=17)
 
+    # (ii+) the answer arrives behind other traffic
+    bh = sorted(set(PERMANENT) | set(RETRYABLE) | {0, -1, 2 ** 63})
+    bhcfgs = [{"part": "behind", "code": c} for c in bh]
+    out_bh = explorer.explore(RUN, bhcfgs)
+    sched.absorb(res, "ii-answer-behind-other-traffic", RUN, out_bh, bhcfgs)
+    samples += _pick("ii-answer-behind-other-traffic", bhcfgs)
+    sched.debug_pass(res, "ii-answer-behind-other-traffic", RUN, bhcfgs, every=6)
+
     # (ii'') the same error answers through the real inbound paths of the three transports
     # byte carriers: the quantifier's 64-bit values; an integer outside [-2^63, 2^64-1] is not a 64-bit code (recorded as an assumption)
     ccodes = [c for c in (boundary_codes() if tier == "quick" else codes) if -(2 ** 63) <= c <= 2 ** 64 - 1]
@@ -1214,7 +1268,7 @@ def run(tier: str, only=None) -> core.Result:
     cov["call_order_pairs"] = cnt.get("order_pairs", 0)
     cov["two_call_scenarios"] = cnt.get("pair_scenarios", 0)
     cov["carriers"] = CARRIERS
-    calls = cnt.get("carrier_calls", 0) + cnt.get("twice_calls", 0) + cnt.get("boolseq_calls", 0) + cnt.get("pair_calls", 0) + cnt.get("order_sm_calls", 0) + cnt.get("sm_calls", 0) + cnt.get("helper_calls", 0) + cnt.get("baseline_calls", 0) + cnt.get("initpv_calls", 0)
+    calls = cnt.get("behind_calls", 0) + cnt.get("carrier_calls", 0) + cnt.get("twice_calls", 0) + cnt.get("boolseq_calls", 0) + cnt.get("pair_calls", 0) + cnt.get("order_sm_calls", 0) + cnt.get("sm_calls", 0) + cnt.get("helper_calls", 0) + cnt.get("baseline_calls", 0) + cnt.get("initpv_calls", 0)
     cov["evaluations"] = cnt.get("fn_evaluations", 0) + calls
     cov["driven_calls"] = calls
     cov["function_evaluations"] = cnt.get("fn_evaluations", 0)
@@ -1240,7 +1294,8 @@ def run(tier: str, only=None) -> core.Result:
         "{parse_message, JSONRPCMessage(...)}; two send_message calls on separate stream pairs, in flight together (answers in both orders) or one "
         "after the other, with one params dict object shared between them or separate dicts (3 initial dicts incl. one with _meta), progress "
         "callbacks on none/one/both, answered with error x error over 4 codes or error + result: each call must raise its own classified error / "
-        "return its own result; send_message through the REAL inbound paths of every carrier - stdio (scripted child), Streamable HTTP with a JSON body and with an "
+        "return its own result; the error answer arriving behind 0/1/2/99/100/101/250 other messages (notifications, responses and ERRORS WITH A CODE OF THE OTHER CLASS "
+        "for other ids, server requests, mixed) for the 17 named/special codes: the call must raise ITS error; send_message through the REAL inbound paths of every carrier - stdio (scripted child), Streamable HTTP with a JSON body and with an "
         "SSE body, legacy SSE with the answer on the event stream and as an immediate JSON body (scripted httpx layer) - x "
         + ("boundary codes" if tier == "quick" else "every code") + " x every wire-representable shape for the named codes (5 shapes incl. the EMPTY message for the others): "
         "class, code and message must be the same as over memory streams, also when the error response carries explicit null companions "
